@@ -376,7 +376,11 @@ func ReverseAddr(addr string) (arpa string, err error) {
 // String returns the string representation for the type t.
 func (t Type) String() string {
 	if t1, ok := TypeToString[uint16(t)]; ok {
-		return t1
+		// Only emit mnemonics that the zone parser, which looks them up in
+		// upper case, reads back as this type ("None" and "Reserved" are not).
+		if t2, ok := StringToType[strings.ToUpper(t1)]; ok && t2 == uint16(t) {
+			return t1
+		}
 	}
 	return "TYPE" + strconv.Itoa(int(t))
 }
